@@ -96,7 +96,9 @@ HInst(q, r, j) ==
       End == IF u # 0 /\ F[u].fid >= 1 THEN F[u].fid ELSE N + 1
       Trigs == {F[o].fid : o \in Out}
       KTrigs == Trigs \cap Idx
-      Grp(t) == {o \in Out : F[o].fid = t}
+      \* (functions, not operators: TLC evaluates a function value once)
+      GrpF == [t \in Trigs \cup {-1} |-> {o \in Out : F[o].fid = t}]
+      Grp(t) == IF t \in DOMAIN GrpF THEN GrpF[t] ELSE {}
       ProcSet == KTrigs \cup (IF u # 0 /\ F[u].fid >= 1 THEN {F[u].fid} ELSE {})
       SeenLB == IF tail THEN MinOr(ProcSet, N + 1) ELSE 0
       Seen == {i \in Vis : i >= SeenLB}
@@ -105,10 +107,14 @@ HInst(q, r, j) ==
       Owed == {i \in StopC : i \in Seen \/ i \in Must}
       exp == SelectSeq(k.outs, LAMBDA o : o.stored)
       \* position of a group in the instance's sequence of invocations that produced output
-      FirstOf(t) == Min(Grp(t))
-      SynthFrames == Grp(-1)
-      PosOf(o) == Cardinality({t \in KTrigs : FirstOf(t) < o}) + Cardinality({x \in SynthFrames : x < o}) + 1
-      LaterActivity(i) == (\E t \in KTrigs : t > i) \/ (u # 0 /\ F[u].fid > i)
+      MaxTrig == MaxOr(KTrigs, 0)
+      FirstF == [t \in KTrigs |-> Min(GrpF[t])]
+      LastF == [t \in KTrigs |-> Max(GrpF[t])]
+      FirstOf(t) == FirstF[t]
+      SynthFrames == GrpF[-1]
+      Firsts == {FirstF[t] : t \in KTrigs} \cup SynthFrames
+      PosOf(o) == Cardinality({x \in Firsts : x < o}) + 1
+      LaterActivity(i) == MaxTrig > i \/ (u # 0 /\ F[u].fid > i)
       settled == Settled(q, j)
       \* ---- one output frame o, expected descriptor e, trigger t, position pos
       FrameBad(o, e, t, pos) ==
@@ -127,7 +133,11 @@ HInst(q, r, j) ==
             pos == PosOf(FirstOf(t))
         IN  (IF Len(got) > Len(exp) THEN {V({"C15", "C14"}, "extra-output", got[Len(exp) + 1])} ELSE {})
             \cup UNION {FrameBad(got[x], exp[x], t, pos) : x \in 1..(IF Len(got) < Len(exp) THEN Len(got) ELSE Len(exp))}
-            \cup (IF Len(got) < Len(exp) /\ (settled \/ \E t2 \in KTrigs : t2 > t)
+            \* a group that can no longer be completed (a later trigger was handled, or the instance
+            \* stopped) is wrong for good; the last group of a live instance is owed until quiescence
+            \cup (IF Len(got) < Len(exp) /\ (MaxTrig > t \/ u # 0)
+                  THEN {V({"C15"}, "incomplete-group", got[Len(got)])} ELSE {})
+            \cup (IF Len(got) < Len(exp) /\ ~(MaxTrig > t \/ u # 0) /\ settled
                   THEN {V({"C15"}, "missing-output-of-group", got[Len(got)])} ELSE {})
       Eligible(t) ==
         IF F[t].ctx # c THEN {V({"C14", "C06"}, "foreign-context-trigger", t)}
@@ -153,15 +163,18 @@ HInst(q, r, j) ==
         \cup (IF u # 0 THEN {V({"C16"}, "output-after-unregistered", o) : o \in {o \in Out : o > u}} ELSE {})
         \cup (IF u # 0 /\ k.valid /\ F[u].fid = 0 THEN {V({"C16"}, "valid-script-rejected", u)} ELSE {})
         \cup (IF u # 0 /\ F[u].fid = -1 THEN {V({"C16"}, "unregistered-names-unknown-frame", u)} ELSE {})
-        \cup (IF u # 0 /\ F[u].fid >= 1 /\ F[u].fid \notin StopC THEN {V({"C16", "C15"}, "spurious-stop", u)} ELSE {})
+        \cup (IF u # 0 /\ F[u].fid >= 1 /\ F[u].fid \notin StopC /\ OwnReg(F[u].fid) /\ F[u].fid <= r
+              THEN {V({"C14", "C16"}, "stopped-by-old-registration-traffic", u)} ELSE {})
+        \cup (IF u # 0 /\ F[u].fid >= 1 /\ F[u].fid \notin StopC /\ ~(OwnReg(F[u].fid) /\ F[u].fid <= r)
+              THEN {V({"C16", "C15"}, "spurious-stop", u)} ELSE {})
         \cup (IF u # 0 /\ F[u].fid >= 1 /\ F[u].fid \in StopC /\ F[u].err # ~OwnReg(F[u].fid)
               THEN {V({"C16", "C15"}, "unregistered-error-flag", u)} ELSE {})
         \cup {V({"C16"}, "stop-ignored", i) : i \in {i \in StopC \cap Seen : i < End /\ LaterActivity(i)}}
         \cup {V({"C16", "C15"}, "missing-unregistered", i) : i \in {i \in Owed : i < End /\ ~LaterActivity(i) /\ u = 0 /\ settled /\ Ann # {}}}
         \* ---- invocations: eligible, in order, one at a time, complete groups
         \cup UNION {Eligible(t) : t \in KTrigs}
-        \cup {V({"C14"}, "trigger-order", t2) : t2 \in {t2 \in KTrigs : \E t1 \in KTrigs : t1 < t2 /\ Max(Grp(t1)) > Min(Grp(t2))}}
-        \cup {V({"C14"}, "interleaved-invocations", x) : x \in {x \in SynthFrames : \E t \in KTrigs : Min(Grp(t)) < x /\ x < Max(Grp(t))}}
+        \cup {V({"C14"}, "trigger-order", t2) : t2 \in {t2 \in KTrigs : \E t1 \in KTrigs : t1 < t2 /\ LastF[t1] > FirstF[t2]}}
+        \cup {V({"C14"}, "interleaved-invocations", x) : x \in {x \in SynthFrames : \E t \in KTrigs : FirstF[t] < x /\ x < LastF[t]}}
         \cup (IF k.group > 0 THEN UNION {GroupBad(t) : t \in KTrigs} ELSE {})
         \cup (IF k.group = 0 /\ Out # {} THEN {V({"C15"}, "unexpected-output", Min(Out))} ELSE {})
         \cup (IF k.group > 0 /\ SynthFrames # {} /\ Len(exp) = 1
@@ -209,7 +222,8 @@ HReg(q, r) ==
       n == F[r].name
       j0 == F[r].inc
       Incs == j0..MaxInc(q)
-      I(j) == HInst(q, r, j)
+      IFun == [j \in Incs |-> HInst(q, r, j)]      \* a function: each instance is analysed once
+      I(j) == IFun[j]
       All == {i \in Idx : F[i].hid = r /\ Proc(i)}
       AllUnr == {i \in All : F[i].name = n /\ F[i].suf = "unregistered"}
       AllAnn == {i \in All : F[i].name = n /\ F[i].suf = "registered"}
